@@ -28,4 +28,22 @@ theorem py_orient_sensor_to : Py.orient_sensor_to.ok = false ∨
          · refine ⟨?_, ?_⟩ <;> first | rfl | (simp <;> ring_nf))
       | (refine ⟨?_, ?_⟩ <;> first | rfl | (intro h; exact absurd h hlt) | (simp <;> ring_nf))
 
+/-- `SeismicRecording3C.__init__` stores `degNorm` of the orientation it is given (the repaired `360.0 ↦ 0` case cannot occur over `ℝ`) -/
+theorem py_init_orientation : Py.init_orientation.ok = false ∨
+    ∀ d : ℝ, Py.init_orientation d = degNorm d := by
+  bridge_cases
+    intro d
+    have hlt : ¬ ((360 : ℝ) ≤ d - 360 * (⌊d / 360⌋ : ℝ)) := by
+      have := Int.lt_floor_add_one (d / 360)
+      rw [div_lt_iff₀ (by norm_num : (0 : ℝ) < 360)] at this
+      intro h; linarith
+    simp only [Py.init_orientation, degNorm, ofNat_real, py_floordiv, ofInt_real', floor_real, lit_real]
+    try norm_num
+    all_goals first
+      | (intro h; exact absurd h hlt)
+      | (split_ifs with h
+         · exact absurd h hlt
+         · first | rfl | ring_nf)
+      | rfl
+
 end HV.Bridge
